@@ -68,6 +68,20 @@ fn decoys(cfg: &Value) -> (Vec<String>, Vec<String>) {
 }
 static DECOY_FILES: Mutex<Vec<String>> = Mutex::new(Vec::new());
 
+/// Names of log files left by earlier runs (oldest first): what this appender would have written some periods ago.
+fn old_logs(cfg: &Value) -> Vec<String> {
+    let n = cfg["old_logs"].as_u64().unwrap_or(0) as i64;
+    let rot = cfg["rot"].as_str().unwrap_or("never");
+    let p = period_secs(rot);
+    if n == 0 || p == 0 {
+        return vec![];
+    }
+    let prefix = cfg["prefix"].as_str().map(|s| s.to_string());
+    let suffix = cfg["suffix"].as_str().map(|s| s.to_string());
+    let start = cfg["start"].as_i64().unwrap_or(0);
+    (1..=n).rev().map(|k| file_name(rot, &prefix, &suffix, start - 3 * k * p)).collect()
+}
+
 fn read_dir(dir: &std::path::Path) -> BTreeMap<String, Vec<u8>> {
     let mut m = BTreeMap::new();
     let skip = DECOY_FILES.lock().unwrap().clone();
@@ -111,7 +125,7 @@ impl Engine for RollingEngine {
         &["C16"]
     }
     fn rule(&self, _p: &str) -> String {
-        "configuration = rotation kind x prefix/suffix combination x file limit (none, 1..3) x interface (exclusive io::Write on one thread, or shared MakeWriter used by 2-4 threads under seeded schedules with preemption at every access of next_date, hooks H4/H7, and at the file lock) x (a third of the runs) foreign entries already in the directory - files that do not match prefix/suffix and a directory that does - which must survive untouched and never count against the limit; history = phases of a simulated clock step (to an exact boundary, one second before it, several periods ahead, across month/year ends and leap days, standing still, stepping back) followed by writes of unique buffers; non-trivial = at least one rotation and (shared interface) at least two threads wrote in a phase that crossed a boundary, or (exclusive) a step back / stand-still occurred after a rotation; distinct = distinct (plan, schedule digest)".into()
+        "configuration = rotation kind x prefix/suffix combination x file limit (none, 1..3) x interface (exclusive io::Write on one thread, or shared MakeWriter used by 2-4 threads under seeded schedules with preemption at every access of next_date, hooks H4/H7, and at the file lock) x (a third of the runs) foreign entries already in the directory - files that do not match prefix/suffix and a directory that does - which must survive untouched and never count against the limit x (half of the limited runs) 1-4 older log files of the appender's own naming already present, which count and are pruned first; history = phases of a simulated clock step (to an exact boundary, one second before it, several periods ahead, across month/year ends and leap days, standing still, stepping back) followed by writes of unique buffers; non-trivial = at least one rotation and (shared interface) at least two threads wrote in a phase that crossed a boundary, or (exclusive) a step back / stand-still occurred after a rotation; distinct = distinct (plan, schedule digest)".into()
     }
     fn components(&self) -> Value {
         json!({"real": ["tracing_appender::rolling::{RollingFileAppender, RollingWriter, Inner}", "std::fs on a private temp directory", "time crate (date arithmetic and formatting)"], "stub": ["clock (hook H4 reads the simulated wall clock)", "parking_lot RwLock around the file (cooperative)"]})
@@ -146,7 +160,7 @@ impl Engine for RollingEngine {
             steps.push(json!({"clock": clock, "writes": per}));
         }
         let sched = if shared { Sched::swarm(&mut rng, 200) } else { Sched::op_order(rng.next_u64()) };
-        json!({"engine": "rolling", "prop": g.prop, "mode": g.mode, "cfg": {"rot": rot, "prefix": prefix, "suffix": suffix, "limit": limit, "shared": shared, "threads": nthreads, "start": start, "decoys": rng.chance(1, 3)}, "steps": steps, "sched": serde_json::to_value(&sched).unwrap(), "hang_is_violation": true})
+        json!({"engine": "rolling", "prop": g.prop, "mode": g.mode, "cfg": {"rot": rot, "prefix": prefix, "suffix": suffix, "limit": limit, "shared": shared, "threads": nthreads, "start": start, "decoys": rng.chance(1, 3), "old_logs": if !limit.is_null() && rot != "never" && (!prefix.is_null() || !suffix.is_null()) && rng.chance(1, 2) { rng.range(1, 4) } else { 0 }}, "steps": steps, "sched": serde_json::to_value(&sched).unwrap(), "hang_is_violation": true})
     }
 
     fn execute(&self, plan: &Value) -> RunResult {
@@ -193,6 +207,12 @@ impl Engine for RollingEngine {
                 let _ = std::fs::create_dir_all(dir2.join(d));
             }
             *DECOY_FILES.lock().unwrap() = dfiles.clone();
+            // log files of earlier runs (names the appender itself would have produced), oldest first
+            for name in old_logs(&cfg2) {
+                let _ = std::fs::write(dir2.join(&name), b"");
+                fault("older_log_files_present");
+                std::thread::sleep(std::time::Duration::from_millis(12));
+            }
             if !dfiles.is_empty() {
                 fault("foreign_entries_in_log_dir");
                 // their creation time precedes every log file's
@@ -360,7 +380,8 @@ fn oracle(cfg: &Value, phases: &[Phase], files: &BTreeMap<String, Vec<u8>>) {
     let mut cur = file_name(rot, &prefix, &suffix, start);
     let mut boundary = next_boundary(rot, start);
     // model of existing files in creation order
-    let mut existing: Vec<String> = vec![cur.clone()];
+    let mut existing: Vec<String> = old_logs(cfg);
+    existing.push(cur.clone());
     let mut pruned: Vec<String> = vec![];
     // where each buffer may be: buffer -> allowed files
     let mut allowed: Vec<((usize, usize), Vec<String>)> = vec![];
